@@ -57,6 +57,40 @@ def finish(prop, tier, seed, t0, level, batches, det, violations, known_lines, n
         "known_findings_reported": known_lines,
         "nondeterministic_reports": nondet_msgs,
     }
+    # reach probes: things the workload is meant to hit; anything listed here was NOT hit in this run
+    st = stats or {}
+    zero = []
+    modes = ["822", "5321", "5322", "6531"]
+    ms = st.get("mode_switch_then_validated", {})
+    for a in modes + (["none"] if prop != "C19" else []):
+        for b in modes:
+            if a != b and not ms.get("%s->%s" % (a, b)):
+                zero.append("mode switch %s->%s followed by a validation" % (a, b))
+    if prop in ("C13", "C18"):
+        seen = set(st.get("errcodes_seen", []))
+        # 1 (INVALID_RFC) is not an eav_is_email outcome; 33/35 (TEST/RETIRED TLD classes) do not occur in the generated table
+        for ec in range(0, 36):
+            if ec not in seen and ec not in (1, 33, 35):
+                zero.append("errcode %d as an eav_is_email outcome" % ec)
+    for k in ("setup_ok", "errstr_checked", "outcome_comparisons", "ledger_checks", "reference_executions") + (("setup_invalid_rfc", "free_init") if prop != "C19" else ()):
+        if not st.get(k):
+            zero.append(k)
+    if any(b.cfg in ("fault", "single", "multi", "lockstep-fault", "fault-long") for b in batches):
+        fb = st.get("idn_fault_fired_by_buffer_mode", {})
+        for k in ("A_output_untouched", "B_buffer_produced", "C_converted_then_failed"):
+            if not fb.get(k):
+                zero.append("IDN fault with buffer mode " + k)
+        if len(st.get("idn_fault_fired_by_code", {})) < 30:
+            zero.append("some of the 30 IDN return codes never fired (%d did)" % len(st.get("idn_fault_fired_by_code", {})))
+    if prop == "C18":
+        for k in ("ctx_created", "ctx_destroyed_by_setup", "ctx_destroyed_by_free", "setup_fault_fired", "left_6531_for_ascii"):
+            if not st.get(k):
+                zero.append(k)
+    if prop == "C19":
+        for k in ("containment_checks", "low_level_calls"):
+            if not st.get(k):
+                zero.append(k)
+    cov["probes_at_zero"] = zero
     cov.update(extra_cov or {})
     core.write_evidence(prop, tier, seed, level, cov, assumptions, wall, len(violations))
 
